@@ -9,7 +9,7 @@ import sys
 import time
 
 from .. import common
-from ..common import ctext, clist, cnat, copt
+from ..common import ctext, clist, cnat, copt, cbool
 from ..repl_machine import Machine, spec_command, py_cmdlines
 
 FINISH = dict(level='proof', rule='sessions = constructor (banner, prompt change, optional extra command) + up to 6 generated commands (single-line, multi-line '
@@ -37,6 +37,7 @@ def make_fake(pexpect, prompt, cont, banner, orig, cuts):
     class Fake(pexpect.spawn):
         def __init__(self):
             pexpect.spawn.__init__(self, None, encoding='utf-8', echo=False, timeout=5)
+            self.echo_calls = []
             self.closed = False
             self.child_fd = 987
             self.pid = 4242
@@ -68,6 +69,14 @@ def make_fake(pexpect, prompt, cont, banner, orig, cuts):
         def isalive(self):
             return True
 
+        def setecho(self, state):
+            self.echo_calls.append(0 if state is False and not self.got and not self.ints else 7)
+            self.echo = state
+
+        def waitnoecho(self, timeout=-1):
+            self.echo_calls.append(1 if not self.got else 8)
+            return True
+
         def close(self, force=True):
             self.closed = True
 
@@ -96,6 +105,7 @@ def run_sim(pexpect, case):
     prompt, cont = case['prompts']
     queue = [list(c) for c in case['ccuts']]
     fake, m = make_fake(pexpect, prompt, cont, case['banner'], case['orig'], queue)
+    fake.echo = case['echo']
     box = {}
 
     def build():
@@ -106,8 +116,8 @@ def run_sim(pexpect, case):
     records = []
     if r[0] != 0:
         fake.closed = True
-        return [[1, r, wv()]], records
-    obs = [[0, wv()]]
+        return [[1, r, wv(), list(fake.echo_calls)]], records
+    obs = [[0, wv(), list(fake.echo_calls)]]
     w = box['w']
     for command, ccs in case['cmds']:
         del queue[:]
@@ -175,7 +185,7 @@ def gen_case(rng):
         cmds.append((c, [gen_cut(rng, 12) for _ in range(n)]))
     extra = None if rng.random() < 0.6 else gen_command(rng, True)
     return {'prompts': prompts, 'banner': rng.choice(['', 'Welcome\r\n', 'fake 1.0\r\nnote: $x\r\n']), 'orig': rng.choice(['$', '>>> ', 'orig> ']),
-            'change': rng.choice(['eset', 'PS1=x', 'n']), 'extra': extra, 'ccuts': [gen_cut(rng, 10) for _ in range(8)], 'cmds': cmds, 'clean': clean and prompts == DEFAULT}
+            'change': rng.choice(['eset', 'PS1=x', 'n']), 'extra': extra, 'ccuts': [gen_cut(rng, 10) for _ in range(8)], 'cmds': cmds, 'echo': rng.random() < 0.3, 'clean': clean and prompts == DEFAULT}
 
 
 def coq_case(case):
@@ -184,7 +194,7 @@ def coq_case(case):
     ccuts = list(case['ccuts'])
     while len(ccuts) < 2:
         ccuts.append([])
-    return '(%s, %s, %s, %s, %s, %s, %s, %s)' % (ctext(case['prompts'][0]), ctext(case['prompts'][1]), ctext(case['banner']), ctext(case['orig']),
+    return '(%s, %s, %s, %s, %s, %s, %s, %s, %s)' % (cbool(case['echo']), ctext(case['prompts'][0]), ctext(case['prompts'][1]), ctext(case['banner']), ctext(case['orig']),
                                                  ctext(case['change']), copt(case['extra'], ctext), cuts(ccuts), cmds)
 
 
@@ -348,7 +358,7 @@ def run(ctx):
                     'the REPL child (bash, python, any other) is outside pexpect: the theorems assume a REPL whose responses contain a prompt string only as their end; '
                     'real bash/python and a real child implementing the modelled family are exercised as direct oracles (sampled)']
     ctx.assumptions += ['the original prompt of the constructor is matched as a literal (the code compiles it as a regular expression: C01-C03)',
-                        'setecho/waitnoecho in the constructor (terminal attributes) are not modelled: the wrapper is given a spawn object with echo off']
+                        'what setecho/waitnoecho do to the terminal is the kernel (C05 covers the waiting); the model only says that the constructor calls them, first, exactly when the child echoes']
     ok = ctx.build('Props/C16.v', extra=['Repl/Run.v'])
     rng = ctx.rng
     cases, lines_cases = [], []
@@ -373,7 +383,7 @@ def run(ctx):
             ctx.hit('C16/lines', 'run_command(%r) sent the lines %r; the command is %r' % (c, got, py_cmdlines(c)), {'command': c})
         lines_cases.append((ctext(c), got, {'command': repr(c)}))
     if have:
-        ctx.run_cases('repl-sim', ['Repl.Model', 'Repl.Run'], 'run_repl_obs', 'list N * list N * list N * list N * list N * option (list N) * list (list nat) * list (list N * list (list nat))', cases, shard=250)
+        ctx.run_cases('repl-sim', ['Repl.Model', 'Repl.Run'], 'run_repl_obs', 'bool * list N * list N * list N * list N * list N * option (list N) * list (list nat) * list (list N * list (list nat))', cases, shard=250)
         ctx.run_cases('repl-cmdlines', ['Repl.Model', 'Repl.Run'], 'run_cmdlines', 'list N', lines_cases, shard=500)
     else:
         ctx.corr_broken.append(('repl-sim', {'error': 'model did not build'}))
